@@ -472,6 +472,15 @@ class Interp:
                 if it[2] == "keys":
                     return [C(k) for k in h["items"]]
                 return list(h["items"].values())
+            if not h["items"] and h["dyn"] and not h.get("const") and all(
+                    tuple(pc) == tuple(h.get("pc0", ())) and k_[0] in ("classref", "funcref")
+                    for k_, v_, pc in h["dyn"]):
+                # a display keyed by classes / functions ({ServiceScan: {...}, ...})
+                if it[2] == "items":
+                    return [("tuple", (k_, v_)) for k_, v_, _ in h["dyn"]]
+                if it[2] == "keys":
+                    return [k_ for k_, _, _ in h["dyn"]]
+                return [v_ for _, v_, _ in h["dyn"]]
         if it[0] == "dictobj":
             h = self.heap[it[1]]
             if not h["dyn"] and not h.get("const"):
@@ -579,6 +588,37 @@ class Interp:
             return not t[1]
         return is_const(t) and t[1] in ((), "")
 
+    def _list_segments(self, it):
+        """[("elem", term) | ("iter", iterable term)] when `it` is a list object assembled from
+        more than one source (so that no single producer describes it); None otherwise"""
+        while it[0] == "call" and it[1] in ("builtins.list", "builtins.tuple", "builtins.iter") \
+                and len(it[2]) == 1 and not it[3]:
+            it = it[2][0]
+        if it[0] != "listobj":
+            return None
+        h = self.heap[it[1]]
+        if len(h["elts"]) + len(h["dyn"]) < 2 or len(h["elts"]) + len(h["dyn"]) > 12:
+            return None
+        segs = [("elem", e) for e in h["elts"]]
+        for op, args, pc in h["dyn"]:
+            if op == "append" and len(args) == 1:
+                if tuple(pc) == tuple(h.get("pc0", ())):
+                    segs.append(("elem", args[0]))       # appended where the list was created
+                    continue
+                oid = self.new_id()
+                self.heap[oid] = {"kind": "list", "elts": [], "dyn": [(op, args, pc)],
+                                  "pc0": h.get("pc0", ()), "site": h.get("site")}
+                segs.append(("iter", ("listobj", oid)))
+            elif op == "extend" and len(args) == 1 and tuple(pc) == tuple(h.get("pc0", ())):
+                sub = self._literal_elements(args[0])
+                if sub is not None:
+                    segs.extend(("elem", e) for e in sub)
+                else:
+                    segs.append(("iter", args[0]))
+            else:
+                return None
+        return segs
+
     def _nonempty_alternative(self, it):
         """iterating `c ? A : <empty literal>` visits A's elements, under c: (A, c) or None.
         Views of such a conditional (`.items()` ...) are looked through."""
@@ -628,6 +668,24 @@ class Interp:
             for el in elts:
                 self._assign(s.target, el, st, act, s)
                 st = self._block(s.body, st, act)
+                if st is None:
+                    return None
+            return st
+        segs = self._list_segments(it) if forced is None else None
+        if segs is not None and not s.orelse and not any(
+                isinstance(n, (ast.Continue, ast.Break)) for b in s.body for n in ast.walk(b)):
+            # a list put together from several sources (literal elements, appends in different
+            # loops, extends): the loop visits them one after the other - literal elements unrolled,
+            # every produced part as the producer loop it is
+            for kind, payload in segs:
+                if kind == "elem":
+                    self._assign(s.target, payload, st, act, s)
+                    st = self._block(s.body, st, act)
+                else:
+                    inner = ast.For(target=s.target, iter=s.iter, body=s.body, orelse=[],
+                                    type_comment=None, lineno=s.lineno, col_offset=s.col_offset)
+                    inner._forced_iter = payload
+                    st = self._for(inner, st, act)
                 if st is None:
                     return None
             return st
@@ -734,7 +792,11 @@ class Interp:
                 apc = apps[0][2]
                 extra = apc[len(pc0):] if apc[:len(pc0)] == pc0 else \
                     tuple(c for c in apc if c not in pc0)
-                extra = tuple(c for c in extra if c[0] != "fact")
+                # (facts from asserts are not conditions of the element; the record of an inner
+                # early exit - `if a: if b: continue` - is: the element exists only where one of
+                # the two branches fell through)
+                extra = tuple(c[1] if c[0] == "fact" and c[1][0] == "or" else c
+                              for c in extra if c[0] != "fact" or c[1][0] == "or")
                 return apps[0][1][0], extra
             return None
         if it[0] == "comp" and it[1] in ("list", "gen") and len(it[3]) >= 1 and len(it[2]) == 1:
@@ -1110,6 +1172,14 @@ class Interp:
         if base[0] != "dictobj":
             return None
         h = self.heap[base[1]]
+        if h["dyn"] and not h["items"] and key[0] == "classref" and all(
+                tuple(pc) == tuple(h.get("pc0", ())) and k_[0] == "classref"
+                for k_, v_, pc in h["dyn"]):
+            # a display keyed by classes, evaluated where it is written
+            for k_, v_, _ in h["dyn"]:
+                if k_ == key:
+                    return True, v_
+            return False, None
         if h["dyn"]:
             return None
         if is_const(key):
@@ -1224,6 +1294,25 @@ class Interp:
         return self._fold_bin(BIN_OPS.get(type(e.op), "?"), a, b)
 
     def _e_Compare(self, e, st, act):
+        # `next(G, None) is (not) None` over a produced sequence G (generator call, list built by
+        # one append in loops, identity comprehension): "G has (no) element" - the elements
+        # themselves are taken not to be None, which is what the idiom presupposes
+        if len(e.ops) == 1 and isinstance(e.ops[0], (ast.Is, ast.IsNot)) \
+                and isinstance(e.comparators[0], ast.Constant) and e.comparators[0].value is None \
+                and isinstance(e.left, ast.Call) and isinstance(e.left.func, ast.Name) \
+                and e.left.func.id == "next" and len(e.left.args) == 2 and not e.left.keywords \
+                and isinstance(e.left.args[1], ast.Constant) and e.left.args[1].value is None \
+                and "next" not in st.env:
+            g = self._eval(e.left.args[0], st, act)
+            src = self._iter_source(g)
+            if src is not None and any(c[0] == "inloop" for c in src[1]) \
+                    and not (is_const(src[0]) and src[0][1] is None):
+                extra = tuple(src[1])
+                i0 = next(i for i, c in enumerate(extra) if c[0] == "inloop")
+                ex = ("exists", extra[i0][1], extra[i0 + 1:])
+                if extra[:i0]:
+                    ex = _boolop("and", list(extra[:i0]) + [ex])
+                return ex if isinstance(e.ops[0], ast.IsNot) else ("not", ex)
         left = self._eval(e.left, st, act)
         parts = []
         for op, r in zip(e.ops, e.comparators):
@@ -1283,6 +1372,10 @@ class Interp:
                 keys = list(self.heap[coll[1]]["items"])
                 if all(isinstance(k_, ClassRef) for k_ in keys):
                     return C((a[1] in {k_.ci.name for k_ in keys}) == (op == "in"))
+            if coll[0] == "dictobj":
+                hit = self._table_lookup(coll, a)
+                if hit is not None:
+                    return C(hit[0] == (op == "in"))
         return ("cmp", op, a, b)
 
     def _e_IfExp(self, e, st, act):
@@ -1392,6 +1485,26 @@ class Interp:
                 self._eval(e.lower, st, act) if e.lower else CONST_NONE,
                 self._eval(e.upper, st, act) if e.upper else CONST_NONE,
                 self._eval(e.step, st, act) if e.step else CONST_NONE)
+
+    def _e_Yield(self, e, st, act):
+        g = getattr(act, "gen", None)
+        v = self._eval(e.value, st, act) if e.value is not None else CONST_NONE
+        if g is None:
+            self._opaque(act, "yield outside a modelled generator call",
+                         f"{act.fi.module.path}:{e.lineno}")
+            return ("unknown", "yield")
+        self.heap[g[1]]["dyn"].append(("append", (v,), st.pc))
+        return CONST_NONE
+
+    def _e_YieldFrom(self, e, st, act):
+        g = getattr(act, "gen", None)
+        v = self._eval(e.value, st, act)
+        if g is None:
+            self._opaque(act, "yield from outside a modelled generator call",
+                         f"{act.fi.module.path}:{e.lineno}")
+            return ("unknown", "yield from")
+        self.heap[g[1]]["dyn"].append(("extend", (v,), st.pc))
+        return CONST_NONE
 
     def _e_Starred(self, e, st, act):
         return ("starred", self._eval(e.value, st, act))
@@ -1628,6 +1741,10 @@ class Interp:
             self.resolved_calls += 1
             mod, qn = ft[1].split(":")
             fi = self.repo.func(mod, qn)
+            if fi.cls is not None and fi.flavour == "classmethod":
+                # ClassName.method(...) resolved as a module member: the class is the receiver
+                return self._inline(fi, [("classref", fi.cls.name)] + args, kwargs, st, act, e,
+                                    dstar=dstar)
             return self._inline(fi, args, kwargs, st, act, e, dstar=dstar)
         if k == "boundmethod":
             self.resolved_calls += 1
@@ -1732,6 +1849,16 @@ class Interp:
                 else:
                     h["dyn"].append((("unknown", "init"), args[0], st.pc))
             return ("dictobj", oid)
+        if fname == "builtins.list" and len(args) == 1 and not kwargs \
+                and args[0][0] in ("mcall", "dictobj", "tuple", "list"):
+            # list(<literal elements>) is the list of those elements (a fresh object: what is
+            # appended to it later is tracked)
+            els = self._literal_elements(args[0])
+            if els is not None and (args[0][0] != "dictobj"):
+                oid = self.new_id()
+                self.heap[oid] = {"kind": "list", "elts": list(els), "dyn": [], "pc0": st.pc,
+                                  "site": f"{act.fi.module.path}:{e.lineno}"}
+                return ("listobj", oid)
         if fname == "builtins.getattr" and len(args) == 2 and is_const(args[1]) \
                 and isinstance(args[1][1], str) and not kwargs:
             # getattr(obj, "name") with a literal name (e.g. from an unrolled table) is obj.name
@@ -1936,6 +2063,15 @@ class Interp:
         self.touched.add(fi.module.path)
         self._emit("enter", st, node, act, callee=fi.fq, how=how,
                    args=tuple(args), kwargs=tuple(sorted(kwargs.items())))
+        # a generator function: the call yields, in order, what its body hands to `yield` - modelled
+        # as the list those values would be appended to (the body is pure in every use the rules
+        # look at; laziness is not observable there)
+        is_gen = _is_generator(fi.node)
+        if is_gen:
+            goid = self.new_id()
+            self.heap[goid] = {"kind": "list", "elts": [], "dyn": [], "pc0": st.pc,
+                               "site": f"{fi.module.path}:{fi.node.lineno}", "generator": fi.fq}
+            callee_act.gen = ("listobj", goid)
         self.stack.append(callee_act)
         try:
             if closure_env:
@@ -1944,6 +2080,8 @@ class Interp:
         finally:
             self.stack.pop()
         self._emit("leave", st, node, act, callee=fi.fq)
+        if is_gen:
+            return callee_act.gen
         rets = callee_act.returns
         # attribute overlay after the call: merge of the callee's exits
         exits = [(pc, ov) for (pc, _), ov in zip(rets, callee_act.return_ovs)]
@@ -1980,6 +2118,19 @@ class Interp:
         if len(rets) == 1:
             return rets[0][1]
         return mk_cases((tuple(pc[n0:]), t) for pc, t in rets)
+
+
+def _is_generator(fn):
+    """the function's own body (nested functions excluded) contains a yield"""
+    stack = list(fn.body)
+    while stack:
+        n = stack.pop()
+        if isinstance(n, (ast.Yield, ast.YieldFrom)):
+            return True
+        if isinstance(n, (ast.FunctionDef, ast.AsyncFunctionDef, ast.Lambda, ast.ClassDef)):
+            continue
+        stack.extend(ast.iter_child_nodes(n))
+    return False
 
 
 def _has_alternatives(t):
